@@ -49,17 +49,23 @@ theorem quiescent_match_or_error (cfg : Cfg) (n : Nat) (s : State) (hr : Reachab
     (hq : quiescent n (observe s) = true) : ∀ c, c < n → matchOrError (observe s) c = true :=
   fun c hc => matchOrError_of_quiescent (inv_reachable hr) hq c hc
 
-/-- After a recover round with IPFS healthy the daemon matches for every CID: from a quiescent reachable
-    state, any interleaving of `recover` instructions (none refused with ErrFullQueue), worker steps and
-    successful daemon calls that recovers every cid and ends quiescent leaves the daemon matching. -/
+/-- After a recover round with IPFS healthy the daemon matches: from a quiescent reachable state, any interleaving
+    of `recover` instructions (none refused with ErrFullQueue), worker steps and successful daemon calls that ends
+    quiescent leaves the daemon matching for every cid that was recovered in the round (`Recover(c)`) — -/
 theorem recover_heals (cfg : Cfg) (n : Nat) (s s' : State) (es : List Ev) (hr : Reachable cfg s)
     (hq : quiescent n (observe s) = true) (hes : ∀ e ∈ es, healthyEv e = true) (hrun : runOk cfg s es = some s')
-    (hall : ∀ c, c < n → Ev.recover c ∈ es) (hq' : quiescent n (observe s') = true) :
-    ∀ c, c < n → daemonMatches (observe s') c = true := by
-  intro c hc
+    (hq' : quiescent n (observe s') = true) (c : Nat) (hc : c < n) (hrec : Ev.recover c ∈ es) :
+    daemonMatches (observe s') c = true := by
   have hi := inv_reachable hr
   obtain ⟨g1, _, g3⟩ := heal_run cfg n es s s' hi (fun c hc => Or.inr (startLike_of_quiescent hi hq c hc)) hes hrun
-  exact matches_of_healed_quiescent g1 hq' c hc (g3 c hc (Or.inr (hall c hc)))
+  exact matches_of_healed_quiescent g1 hq' c hc (g3 c hc (Or.inr hrec))
+
+/-- — hence for every CID after `RecoverAll` (a `recover` of every cid). -/
+theorem recoverAll_heals (cfg : Cfg) (n : Nat) (s s' : State) (es : List Ev) (hr : Reachable cfg s)
+    (hq : quiescent n (observe s) = true) (hes : ∀ e ∈ es, healthyEv e = true) (hrun : runOk cfg s es = some s')
+    (hall : ∀ c, c < n → Ev.recover c ∈ es) (hq' : quiescent n (observe s') = true) :
+    ∀ c, c < n → daemonMatches (observe s') c = true :=
+  fun c hc => recover_heals cfg n s s' es hr hq hes hrun hq' c hc (hall c hc)
 
 /-- A pin operation that `recover` creates carries the pin recorded in the shared pinset. -/
 theorem recover_uses_recorded (cfg : Cfg) (s : State) (c i : Nat) (hr : Reachable cfg s)
